@@ -117,6 +117,8 @@ def cells(tier):
         out.append(mcell(PID, 'payload', carry, T=T))
     out.append(mcell(PID, 'payload', ['metaB'], T=T, n_meta=1))
     out.append(mcell(PID, 'payload', ['metaX'], T=T, story_schema='X'))
+    out.append(mcell(PID, 'payload', ['metaNone'], T=T))
+    out.append(mcell(PID, 'payload', ['metaA', 'metaB', 'metaX'], T=T))
     out.append(mcell(PID, 'payload', ['metaA'], T=T, story_schema='A', meta_split=True))
     out.append(mcell(PID, 'payload', ['metaA'], T=T, n_meta=0))
     out.append(mcell(PID, 'payload', ['metaB', 'roEdStart'], T=T, meta_split=True))
